@@ -81,10 +81,18 @@ def check_spec(spec: NetSpec, label, st: Stats, plan):
             st.inc("executions")
             case = {"spec": spec.describe(), "config": label, "P": P, "engine": sym}
             variants = [("fresh", None)] + ([("edited-links", "links"), ("edited-attachments", "attachments"), ("edited-replace", "replace")] if plan.get("edited") else [])
+            if plan.get("supply"):
+                from ..harness import supply_modes
+                variants = [(f"initial conditions {ml}", sup) for ml, sup in supply_modes(spec)]
             for vname, emode in variants:
               try:
                 if emode is None:
                     F, built, eng = cs_compile(spec, sym, P, compact=0)
+                elif isinstance(emode, frozenset):
+                    # the caller gives its own symbols for part of the variables only
+                    F, built, eng = cs_compile(spec, sym, P, compact=0, supply=emode)
+                    st.inc("executions")
+                    st.inc("partial_condition_compilations")
                 else:
                     eng0 = env.casadi_engine(sym)
                     F, built, eng = cs_compile(spec, sym, P, compact=0, built=build_edited(spec, P, emode, engine=eng0))
@@ -160,8 +168,12 @@ def plans(tier, seed):
         jobs = [({"psets": [0, 1], "cs_sym": ["SX", "MX"], "np": False}, [(lab, s) for _, lab, s in all_specs(3, 4, 1, pal)]
                  + [(f"harness:{k}", s) for k, s in harness_specs(pal).items()]),
                 ({"psets": [0], "cs_sym": ["SX"], "np": False, "edited": True}, [(lab, s) for _, lab, s in all_specs(3, 3, 1, pal)]),
+                ({"psets": [0], "cs_sym": ["SX"], "np": False, "supply": True}, [(lab, s) for _, lab, s in all_specs(3, 3, 0, pal)]
+                 + [(f"harness:{k}", s) for k, s in harness_specs(pal).items()]),
                 ({"psets": [0], "cs_sym": [], "np": True}, [(lab, s) for _, lab, s in all_specs(3, 3, 0, pal)])]
         bounds = {"structural": "(n,m)<=(3,4), c<=1, SX and MX, with and without delta/phi",
+                  "partial_conditions": "(n,m)<=(3,3) base+uniform configurations and the harness list on SX: nothing supplied, every "
+                                        "single element omitted / alone, every single variable omitted",
                   "numeric_numpy": "(n,m)<=(3,3), base+uniform configurations, d=1 over the alphabets, 2 base vectors",
                   "palette": pal}
     else:
@@ -173,6 +185,8 @@ def plans(tier, seed):
                 ({"psets": [0], "cs_sym": ["SX"], "np": False}, b),
                 ({"psets": [0, 1], "cs_sym": ["SX", "MX"], "np": False, "edited": True}, [x for x in c if not x[0].startswith("dev:")]),
                 ({"psets": [0], "cs_sym": ["SX"], "np": False, "edited": True}, [x for x in c if x[0].startswith("dev:")]),
+                ({"psets": [0], "cs_sym": ["SX", "MX"], "np": False, "supply": True}, [x for x in c if not x[0].startswith("dev:")]
+                 + [(f"harness:{k}", s) for k, s in harness_specs(pal).items()]),
                 ({"psets": [0, 1], "cs_sym": [], "np": True}, c)]
         bounds = {"structural": "(3,4) c<=1 and (3,3) c=2 on SX and MX with and without delta/phi; 4-node shapes (4,4) c<=1 on SX; "
                                 "edited-network variants on (3,4) c<=1",
